@@ -398,6 +398,21 @@ func TestC03Prop(t *testing.T) {
 		n := rapid.IntRange(1, 10).Draw(t, "nmsgs")
 		open := make([]bool, nconns)
 		var ms []msg
+		// now and then the history starts with a burst of failed exchanges on one connection: attempt counters,
+		// lock-outs and caches only change behaviour after the n-th failure
+		burst := rapid.OneOf(rapid.Just(0), rapid.Just(0), rapid.Just(0), rapid.IntRange(3, 40)).Draw(t, "burst")
+		if burst > 0 {
+			bc := rapid.IntRange(0, nconns-1).Draw(t, "burst-conn")
+			failing := []string{"finish-wrong-key", "finish-unknown-name", "finish-accessory-name", "finish-seal-zero-key", "finish-seal-random-key", "finish-short", "finish-garbage-tlv", "finish-empty-signature", "mixed"}
+			bk := rapid.SampledFrom(failing).Draw(t, "burst-kind")
+			for i := 0; i < burst; i++ {
+				k := bk
+				if k == "mixed" {
+					k = failing[i%(len(failing)-1)]
+				}
+				ms = append(ms, msg{bc, "start", i}, msg{bc, k, i})
+			}
+		}
 		for i := 0; i < n; i++ {
 			c := rapid.IntRange(0, nconns-1).Draw(t, "conn")
 			groups := [][]string{startKinds, startKinds, startKinds, finishKinds, otherKinds}
@@ -437,6 +452,9 @@ func TestC03Prop(t *testing.T) {
 		}
 		if len(cls) == 0 {
 			cls = []string{"no-finish"}
+		}
+		if burst >= 10 {
+			cls = append(cls, "burst>=10-failed-exchanges")
 		}
 		stats.Case(stats.Hash(seed, nstored, nconns, fmt.Sprint(ms)), nt, dedup(cls), func() interface{} {
 			return map[string]interface{}{"stored_pairings": nstored, "connections": nconns, "messages": fmt.Sprint(ms), "outcomes": labels}
